@@ -178,7 +178,7 @@ func execGrid(f []string) string {
 	if unary {
 		lbs = []string{"0"}
 	}
-	var lit, decl, typed, union, call, ucall []string
+	var lit, decl, typed, union, call, ucall, mixr, mixl []string
 	for i, la := range las {
 		decl = append(decl, fmt.Sprintf("var a%d: %s = %s", i, ta, la), fmt.Sprintf("var u%d: %s = %s", i, unionWith(ta), la))
 	}
@@ -201,6 +201,9 @@ func execGrid(f []string) string {
 			union = append(union, fmt.Sprintf("u%d %s b%d", i, op, j))
 			call = append(call, fmt.Sprintf("a%d.%s(b%d)", i, op, j))
 			ucall = append(ucall, fmt.Sprintf("u%d.%s(b%d)", i, op, j))
+			// one operand a typed variable, the other a literal (the compiler sees a static operand next to a local)
+			mixr = append(mixr, fmt.Sprintf("a%d %s (%s)", i, op, lb))
+			mixl = append(mixl, fmt.Sprintf("(%s) %s b%d", la, op, j))
 		}
 	}
 	l := runVariant("[" + strings.Join(lit, ", ") + "]")
@@ -211,9 +214,10 @@ func execGrid(f []string) string {
 		exprs []string
 	}
 	tries := [][]seg{
-		{{"typed", typed}, {"union", union}, {"call", call}, {"ucall", ucall}},
-		{{"typed", typed}, {"union", union}},
-		{{"typed", typed}, {"call", call}},
+		{{"typed", typed}, {"union", union}, {"call", call}, {"ucall", ucall}, {"mixr", mixr}, {"mixl", mixl}},
+		{{"typed", typed}, {"union", union}, {"mixr", mixr}, {"mixl", mixl}},
+		{{"typed", typed}, {"call", call}, {"mixr", mixr}, {"mixl", mixl}},
+		{{"typed", typed}, {"mixr", mixr}, {"mixl", mixl}},
 		{{"typed", typed}},
 	}
 	if unary {
@@ -290,6 +294,8 @@ func execPath(f []string) string {
 		{"union", decl(unionWith(ta)) + "a " + op + " b"},
 		{"call", decl(ta) + "a." + op + "(b)"},
 		{"ucall", decl(unionWith(ta)) + "a." + op + "(b)"},
+		{"mixr", decl(ta) + "a " + op + " (" + lb + ")"},
+		{"mixl", decl(ta) + "(" + la + ") " + op + " b"},
 	}
 	var sb strings.Builder
 	sb.WriteString("ok")
